@@ -764,8 +764,27 @@ def check_malformed(ctx, rng, req_texts, marker_texts):
     n = ctx.scale(3000, 60000)
     bad = [G.malformed_req(rng, req_texts[:500]) for _ in range(n)]
     impl, _ = ctx.correspond("pep508", [sx(b) for b in bad], label="pep508:malformed", compare=same_split)
-    for line in impl:
-        ctx.count("malformed-req:" + parse_sx(line)[0].decode())
+    panics = []
+    for b, line in zip(bad, impl):
+        k = parse_sx(line)[0].decode()
+        ctx.count("malformed-req:" + k)
+        if k == "panic":
+            panics.append(b)
+    # wide-sense white space next to names and at both ends: ParseDependency trims with " \\t" only, and its s[0]
+    # after the name is safe only because of that (C16_parse_dependency_total)
+    wide = G.wide_ws_requirements(rng, ctx.scale(2500, 50000), req_texts[:500])
+    impl, model = ctx.correspond("pep508", [sx(b) for b in wide], label="pep508:wide-ws", compare=same_split)
+    for b, line, ml in zip(wide, impl, model):
+        k = parse_sx(line)[0].decode()
+        ctx.count("wide-ws-req:" + k)
+        if k == "panic":
+            panics.append(b)
+        if parse_sx(ml)[0] in (b"panic", b"fuel"):
+            ctx.divergence("pep508:model-not-total", sx(b), line, ml)   # contradicts C16_parse_dependency_total
+    for b in sorted(set(panics), key=lambda x: (len(x), x))[:10]:
+        ctx.violation("ParseDependency panics (C04: parsing entry points are total; the model is proved total, "
+                      "C16_parse_dependency_total)", {"kind": "pep508", "arg": sx(b), "text": s8(b)}, observed='("panic")',
+                      required="a value or an error")
     badm = [G.malformed_marker(rng, marker_texts[:500]) for _ in range(n)]
     exs = [G.gen_extras_request(rng) for _ in range(n)]
     tabs = ctx.impl("pep440_tables", [sx(b) for b in badm])
